@@ -2,7 +2,9 @@
 (***************************************************************************************)
 (* Totality of the parse -> schedule pipeline (C11) as a classification of observed     *)
 (* outcomes.  One JSON object per run in IOEnv.OUT_FILE:                                 *)
-(*   {id, status, accepted, nevents, wall_ms, limit_ms, leafs, sched, warned, inHorizon}  *)
+(*   {id, status, accepted, nevents, wall_ms, limit_ms, leafs, sched, warned, inHorizon,  *)
+(*    mustReject}   mustReject: braces / macro brackets of the text do not balance outside *)
+(*    strings and comments (a lexical fact established without the parser): no parse exists *)
 (* status: "rejected" (the parser raised, nothing was scheduled)                          *)
 (*         "ok"       (parse + schedule returned)                                         *)
 (*         "crash"    (an exception escaped after the parser had accepted the text)      *)
@@ -19,8 +21,10 @@ Runs == ndJsonDeserialize(IOEnv.OUT_FILE)
 Reject(r)   == r.status = "rejected" /\ ~r.accepted /\ r.nevents = 0
 Schedule(r) == r.status = "ok" /\ r.accepted /\ r.wall_ms <= r.limit_ms
                /\ r.inHorizon /\ (r.sched < r.leafs => r.warned)
-Admissible(r) == Reject(r) \/ Schedule(r)
-Why(r) == IF r.status = "hang" THEN "no termination within the bound"
+\* a text that cannot be grammatical is rejected, never scheduled in part
+Admissible(r) == (Reject(r) \/ Schedule(r)) /\ (r.mustReject => Reject(r))
+Why(r) == IF r.mustReject /\ r.accepted /\ r.status = "ok" THEN "a text whose braces / macro brackets do not balance was accepted: partial schedule"
+          ELSE IF r.status = "hang" THEN "no termination within the bound"
           ELSE IF r.status = "crash" THEN "internal error after the parser accepted the text"
           ELSE IF r.status = "rejected" THEN "rejected input left schedule events behind"
           ELSE IF r.wall_ms > r.limit_ms THEN "terminated but not within the bound"
